@@ -734,6 +734,8 @@ class Editor:
 
     def method_exceptions(self, how):
         excs = self.gen.visible(self.new, "main")["exception"]
+        if not excs:
+            return None
         for sname, ms, me in self.pick(self.methods()):
             if me["oneway"] or not self.free(("service", sname, me["name"], "excs")) or not self.free(("service", sname, me["name"], "#ret")):
                 continue
